@@ -111,3 +111,23 @@ Proof.
   - vm_compute. split; [discriminate|reflexivity].
   - exists t. split; [exact H1|exact H3].
 Qed.
+
+(* C03: two operations on one connection (a control command whose login is answered with session a1b2c3d4, then a name
+   change whose login is answered with session 11223344), and a third after a login that gets no answer: four frames plus a
+   lone login frame; bytes 8-11 of each command frame are the session of the login reply just before it (replies 0 and 2 of
+   the script), never an earlier one *)
+Require AS.Props.C03.
+Require Import AS.Model.Ops AS.Model.Session AS.Spec.Session.
+Definition r1 : bytes := repeat 7 8 ++ [17; 34; 51; 68] ++ repeat 0 8.
+Definition seq3 : list (N * op) := [(now, OControl true 90%Z); (now + 5, OSetName (s2l "boiler")); (now + 9, OStop)].
+Example C03_sequence_example :
+  let '(fs, rs) := run_seq (cfg_of idb keyb) seq3 [r0; [1]; r1; [1]] in
+  map (pyslice 8 12) fs = [[0; 0; 0; 0]; [161; 178; 195; 212]; [0; 0; 0; 0]; [17; 34; 51; 68]; [0; 0; 0; 0]] /\
+  map (pyslice 24 28) fs = [le32 now; le32 now; le32 (now + 5); le32 (now + 5); le32 (now + 9)] /\
+  rs = [Ok (s2l "ok:1"); Ok (s2l "ok:1"); Exc RuntimeError] /\
+  (fs, rs) = (concat (map fst (alone (cfg_of idb keyb) seq3 [r0; [1]; r1; [1]])), map snd (alone (cfg_of idb keyb) seq3 [r0; [1]; r1; [1]])).
+Proof.
+  pose proof (C03.C03_operations_are_independent (cfg_of idb keyb) seq3 [r0; [1]; r1; [1]]) as H.
+  destruct (run_seq (cfg_of idb keyb) seq3 [r0; [1]; r1; [1]]) as [fs rs] eqn:E.
+  split; [|split; [|split; [|exact H]]]; vm_compute in E; inversion E; subst; vm_compute; reflexivity.
+Qed.
